@@ -12,7 +12,7 @@ SPECS["scale-deep"] = SPECS["scale"]
 
 
 def run(ctx):
-    proofs_ok = ctx.check_proofs(PROP_FILES, extra_targets=["theories/Conc/ParMap.vo", "theories/Conc/ParMapMatcher.vo"])
+    proofs_ok = ctx.check_proofs(PROP_FILES, extra_targets=["theories/Conc/ParMap.vo", "theories/Conc/ParMapMatcher.vo", "theories/Conc/ParMapMatcherComplete.vo"])
     ok, out, exe = vlib.build_runner(module="harness_parmap", exe_name="runner-parmap")
     if not ok:
         ctx.violation("harness-build", "the harness does not build against the current tree: " + out[-1500:],
